@@ -630,7 +630,11 @@ func (gw *GlobalWindow) getKeyAndValues(data map[string]any) (string, map[string
 	values := make(map[string]any, len(gw.groupByKeys))
 	for _, k := range gw.groupByKeys {
 		var val any
-		if fieldpath.IsNestedField(k) {
+		// a function-expression key (upper(dev.id)) was evaluated by the stream and
+		// stored under its text; the dot in it does not make it a path
+		if fv, isFlat := data[k]; isFlat && strings.Contains(k, "(") {
+			val = fv
+		} else if fieldpath.IsNestedField(k) {
 			val, _ = fieldpath.GetNestedField(data, k)
 		} else if v.IsValid() && v.Kind() == reflect.Map && v.Type().Key().Kind() == reflect.String {
 			if mv := v.MapIndex(reflect.ValueOf(k)); mv.IsValid() {
